@@ -3,7 +3,7 @@
    lexicographic tie-breaking, inside_ellipsoid; cover / surface_dist2 = exact specs). *)
 From Coq Require Import Reals QArith Qreals List ZArith Bool Lra Permutation.
 Require Import Cox.Num.Ops Cox.Num.Transfer Cox.Geo.Vec Cox.Model.Mesh Cox.Model.Inside
-  Cox.Thm.InsideThm Cox.Thm.InsideTransfer Cox.Thm.MeshTransfer.
+  Cox.Thm.InsideThm Cox.Thm.InsideTransfer Cox.Thm.MeshTransfer Cox.Thm.Winding3Thm.
 Import ListNotations.
 
 (* convex: the normalised signed distance the code tests has the sign of the exact side value,
@@ -42,6 +42,21 @@ Theorem C05_polyhedron_triangle_order_partial :
     inside_polyhedron Rops p T1 = inside_polyhedron Rops p T2.
 Proof. exact inside_polyhedron_triangle_order. Qed.
 Print Assumptions C05_polyhedron_triangle_order_partial.
+
+(* symmetries of the 3-D winding rule, every triangle list, every point (tie-breaking included): reversing every triangle's
+   orientation negates the chain sum, rotating a triangle's vertices leaves it unchanged; so the answer depends neither on
+   the orientation convention (given an even chain sum, which closed surfaces produce off the surface) nor on which vertex
+   each triangle starts from *)
+Theorem C05_polyhedron_orientation_symmetry_partial :
+  forall (p : vec3 R) (TT : list (@tri R)),
+    chain_sum Rops p (map tflip TT) = (- chain_sum Rops p TT)%Z
+    /\ chain_sum Rops p (map trot TT) = chain_sum Rops p TT
+    /\ inside_polyhedron Rops p (map trot TT) = inside_polyhedron Rops p TT
+    /\ (Z.even (chain_sum Rops p TT) = true -> inside_polyhedron Rops p (map tflip TT) = inside_polyhedron Rops p TT).
+Proof.
+  intros p TT. repeat split; [apply chain_sum_flip | apply chain_sum_rot | apply inside_polyhedron_rot | apply inside_polyhedron_flip].
+Qed.
+Print Assumptions C05_polyhedron_orientation_symmetry_partial.
 
 Theorem C05_polyhedron_transfer :
   forall p TT, inside_polyhedron Qops p TT = inside_polyhedron Rops (Q2R3 p) (map Q2Rt TT).
